@@ -266,6 +266,32 @@ def handle(line: str) -> str:
             return "OK " + pydump.dump(v)
         except Exception as e:  # noqa
             return "BAD-REQUEST " + repr(e)
+    if cmd == "PRINT":
+        try:
+            from metasequoia_sql import SQLParser, SQLType
+            mb, entry, pd, qd = words[1] == "1", words[2], words[3], words[4]
+            text = "".join(chr(int(w)) for w in words[5:])
+            if mb:
+                from metasequoia_sql.plugins.mybaitis import SQLParserMyBatis as P
+            else:
+                P = SQLParser
+            try:
+                v = getattr(P, "parse_" + entry)(text, sql_type=SQLType[pd])
+            except RecursionError:
+                return "PARSEERR Recursion"
+            except Exception as e:  # noqa
+                return "PARSEERR " + err_name(e)
+            nodes = v if isinstance(v, list) else [v]
+            outs = []
+            for n in nodes:
+                try:
+                    s = n.source(SQLType[qd])
+                    outs.append(cps(s) if s else "-")
+                except Exception as e:  # noqa
+                    outs.append("ERR:" + err_name(e))
+            return "OK " + "|".join(outs)
+        except Exception as e:  # noqa
+            return "BAD-REQUEST " + repr(e)
     if cmd == "CURSOR":
         try:
             return run_cursor(words[1:])
